@@ -70,6 +70,14 @@ GK = [
     ("sparse_dot_product", "gk_dot"),
     ("fast_intersection_size", "gk_isect"),
 ]
+# TRANSLATED sparse METRIC kernels (Gen/SparseMetricKernels.lean, harness/translate_sparsemetrics.py; they call the translated
+# sparse_sum): driver command -> the real numba kernel; the outputs are exact small integers on these inputs
+GSM = [
+    ("sparse_diff", "gsm_diff", lambda A: sparse.sparse_diff(*A)),
+    ("sparse_squared_euclidean", "gsm_sqeuclidean", lambda A: sparse.sparse_squared_euclidean(*A)),
+    ("sparse_manhattan", "gsm_manhattan", lambda A: sparse.sparse_manhattan(*A)),
+    ("sparse_chebyshev", "gsm_chebyshev", lambda A: sparse.sparse_chebyshev(*A)),
+]
 GK_NOTE = ("translated kernels (Gen/Kernels.lean, regenerated from sparse.py's source text) are executed by the driver "
            "(gk_sum, gk_mul, gk_dot, gk_isect) on every case and compared exactly with the real numba kernels "
            "(translated-kernel:<kernel>; hist translated:*), additionally on rows that are NOT well formed (unsorted, "
@@ -259,7 +267,10 @@ def driver_lines(case, with_metrics):
 
 
 def gk_lines(case):
-    return [cmd2(op, case) if kern in INDEX_ONLY else cmd4(op, case) for kern, op in GK]
+    return [cmd2(op, case) if kern in INDEX_ONLY else cmd4(op, case) for kern, op in GK] + [cmd4(op, case) for _, op, _ in GSM]
+
+
+NGK = len(GK) + len(GSM)          # translated-kernel lines per case
 
 
 def check_translated(res, pub, empty_operand, impls, tlines):
@@ -276,6 +287,15 @@ def check_translated(res, pub, empty_operand, impls, tlines):
         res.count("translated:compared")
         if trans != impls[kern]:
             res.corr_fail("translated-kernel:" + kern, pub, trans, impls[kern])
+            ok = False
+    A = impls.get("__arrays__")
+    for (kern, op, f), tline in zip(GSM, tlines[len(GK):]):
+        r = f(A)
+        impl = [canon_inds(r[0]), canon_vals(r[1], res)] if kern == "sparse_diff" else canon_vals([r], res)[0]
+        trans = parse_groups(tline) if kern == "sparse_diff" else parse_int(tline)
+        res.count("translated:compared")
+        if trans != impl:
+            res.corr_fail("translated-kernel:" + kern, pub, trans, impl)
             ok = False
     return ok
 
@@ -309,12 +329,12 @@ def run_unchecked(res, rng, n):
     for k, c in enumerate(cases):
         A = arrays(c)
         empty_operand = len(c["ind1"]) == 0 or len(c["ind2"]) == 0
-        impls = {}
+        impls = {"__arrays__": A}
         for kern, _ in GK:
             if kern == "sparse_dot_product" and empty_operand:
                 continue
             impls[kern] = impl_merge(kern, A, res)[0]
-        ok = check_translated(res, public(c), empty_operand, impls, outs[k * len(GK):(k + 1) * len(GK)]) and ok
+        ok = check_translated(res, public(c), empty_operand, impls, outs[k * NGK:(k + 1) * NGK]) and ok
     res.count("translated:unchecked_rows", n)
     return ok
 
@@ -568,7 +588,7 @@ def check_case(res, case, out_lines, with_metrics):
     res.count("gen:" + case["gen"])
     empty_operand = len(case["ind1"]) == 0 or len(case["ind2"]) == 0
     stats = {}
-    impls = {}
+    impls = {"__arrays__": A}
     ok = True
     for k, (kern, op) in enumerate(MERGE):
         mline = out_lines[k]
@@ -615,8 +635,8 @@ def check_case(res, case, out_lines, with_metrics):
     if stats.get("dense_union_cancel"):
         res.count("dense_union:cancelled_coordinate_dropped")
     if with_metrics:
-        check_metrics(res, case, A, out_lines[len(MERGE):len(out_lines) - len(GK)])
-    ok = check_translated(res, pub, empty_operand, impls, out_lines[len(out_lines) - len(GK):]) and ok
+        check_metrics(res, case, A, out_lines[len(MERGE):len(out_lines) - NGK])
+    ok = check_translated(res, pub, empty_operand, impls, out_lines[len(out_lines) - NGK:]) and ok
     common = set(case["ind1"]) & set(case["ind2"])
     only = set(case["ind1"]) ^ set(case["ind2"])
     nontrivial = (not empty_operand) and len(common) >= 1 and len(only) >= 1
